@@ -21,7 +21,7 @@ impl Scenario for EofScenario {
         &tree::PROBES
     }
     fn rule(&self) -> &'static str {
-        "case = (frame type of 7, finite leaves built on the real from_iter / from_interleaved_samples_iter over iterator probes \
+        "case = (frame type of 9, finite leaves built on the real from_iter / from_interleaved_samples_iter over iterator probes \
          (incl. length 0, torn last frame, non-fused iterators) or probe signals, adaptor stack joining leaves of different lengths, \
          seeded pull / is_exhausted / overrun / until_exhausted / interleaved / take / lift schedule); non-trivial = at least one \
          fault kind fired and at least one pull executed after some leaf had been advanced; distinct = hash of (ops, frames observed)"
@@ -46,7 +46,7 @@ impl Scenario for EofScenario {
         }
     }
     fn run(&self, src: &mut Source, obs: &mut Observer) -> Result<(), Violation> {
-        let fmt = src.cfg("frame", 0, 6, |r| r.range(0, 6));
+        let fmt = src.cfg("frame", 0, 8, |r| r.range(0, 8));
         obs.note(fmt as u64);
         match fmt {
             0 => tree::run_tree::<f64>(Flavor::Eof, src, obs),
@@ -55,7 +55,9 @@ impl Scenario for EofScenario {
             3 => tree::run_tree::<[u8; 3]>(Flavor::Eof, src, obs),
             4 => tree::run_tree::<[i32; 1]>(Flavor::Eof, src, obs),
             5 => tree::run_tree::<[dasp_sample::types::U24; 3]>(Flavor::Eof, src, obs),
-            _ => tree::run_tree::<[i16; 8]>(Flavor::Eof, src, obs),
+            6 => tree::run_tree::<[i16; 8]>(Flavor::Eof, src, obs),
+            7 => tree::run_tree::<[i16; 12]>(Flavor::Eof, src, obs),
+            _ => tree::run_tree::<[f32; 9]>(Flavor::Eof, src, obs),
         }
     }
 }
